@@ -362,6 +362,8 @@ pub struct StepCtx<'a> {
     pub ghost_recorded: Option<u128>,
     /// when the chain pays each closed batch, from the history of operations (None: E2 left)
     pub ghost_completion: Option<&'a BTreeMap<u64, u64>>,
+    /// allowance expirations as the owners' calls determine them: (token, owner, spender) → "h<height>" | "t<time>" | "n"
+    pub ghost_allow: &'a BTreeMap<(Id, Id, Id), String>,
 }
 
 pub fn check_step(cx: &StepCtx) -> Vec<Violation> {
@@ -442,6 +444,18 @@ pub fn check_step(cx: &StepCtx) -> Vec<Violation> {
                                 };
                                 if expired {
                                     out.push(v("C18", "from-with-expired-allowance", format!("{} used an allowance expired at {}", kind, e)));
+                                }
+                                // the same against the expiration the owner's own calls determine
+                                // (the stored one may have been altered by a call that omitted it)
+                                if let Some(g) = cx.ghost_allow.get(&(*target, *o, *sender)) {
+                                    let gexp = match g.chars().next() {
+                                        Some('h') => g[1..].parse::<u64>().map(|h| cx.chain_pre.height >= h).unwrap_or(false),
+                                        Some('t') => g[1..].parse::<u64>().map(|t| cx.chain_pre.time >= t).unwrap_or(false),
+                                        _ => false,
+                                    };
+                                    if gexp && !expired {
+                                        out.push(v("C18", "from-with-expired-allowance:history", format!("{} used an allowance the owner granted until {} (stored expiration {})", kind, g, e)));
+                                    }
                                 }
                                 let pa = post_allow.map(|x| x.0).unwrap_or(0);
                                 if amt >= *a && pa != amt - *a {
@@ -789,6 +803,9 @@ pub fn check_step(cx: &StepCtx) -> Vec<Violation> {
                 }
                 if qpre[0] >= pre.thr && minted != nofee {
                     out.push(v("C03", "convert-minted-ne-price", format!("convert {} stSei minted {} bSei ≠ {}", a, minted, nofee)));
+                    if minted < nofee {
+                        out.push(v("C05", "fee-above-threshold", format!("convert {} stSei at bSei rate {} ≥ threshold {} minted {} bSei < {}", a, qpre[0], pre.thr, minted, nofee)));
+                    }
                 }
                 if minted + floor_mul(nofee, pre.fee) < nofee {
                     out.push(v("C05", "fee-above-max", format!("convert st→b: fee {} > max", nofee - minted)));
@@ -801,6 +818,9 @@ pub fn check_step(cx: &StepCtx) -> Vec<Violation> {
                 }
                 if qpre[0] >= pre.thr && minted != nofee {
                     out.push(v("C03", "convert-minted-ne-price", format!("convert {} bSei minted {} stSei ≠ {}", a, minted, nofee)));
+                    if minted < nofee {
+                        out.push(v("C05", "fee-above-threshold", format!("convert {} bSei at rate {} ≥ threshold {} minted {} stSei < {}", a, qpre[0], pre.thr, minted, nofee)));
+                    }
                 }
             }
         }
